@@ -24,7 +24,7 @@ ASSUMPTIONS = ["mpmath series as exact reference", "negative dt excluded"]
 
 def S_coeffs(th):
     """(1-cos)/th^2, (th-sin)/th^3, (th^2/2+cos-1)/th^4 stable in double"""
-    th = np.asarray(th, dtype=float)
+    th = np.abs(np.asarray(th, dtype=float))  # the coefficients are even functions of th (negative steps)
     small = th < 0.05
     t = np.where(small, 1.0, th)
     t2 = th * th
@@ -96,6 +96,7 @@ def gen_inputs(rng, N):
     g[rng.random(N) < 0.3] = 9.8
     dt = O.loguniform(rng, 1e-4, 2.0, N)
     dt[rng.random(N) < 0.03] = 0.0
+    dt[rng.random(N) < 0.08] *= -1.0  # "for any dt": the flow is a group, a negative step is the inverse flow
     # attitudes with scalar part exactly 0 (half turns), kept there by dt = 0, zero rate or a rate perpendicular to the axis
     k = min(N // 20, 200)
     if k >= 6:
@@ -158,7 +159,7 @@ def compare(ctx, site, spec, ev, p0, v0, q0, a, w, g, dt, ref, sub="flow"):
         ctx.skip("euler_gimbal_band:" + site, int((~ok).sum()))
     else:
         ok = np.ones(len(dt), bool)
-    T = dt
+    T = np.abs(dt)
     scale = np.maximum(1, np.maximum(np.abs(p0).max(axis=1) + np.abs(v0).max(axis=1) * T + (np.abs(a).max(axis=1) + g) * T * T,
                                      np.abs(v0).max(axis=1) + (np.abs(a).max(axis=1) + g) * T))
     fin = np.isfinite(X1).all(axis=1)
@@ -185,6 +186,8 @@ def run(ctx):
     funcs = build_funcs(ctx)
     if ctx.shard % 4 == 1:
         numeric_and_named_calls(ctx, ctx.rng("c08:numeric"), 60 if ctx.quick else 1500)
+    if ctx.shard % 4 == 2:
+        general_exp_mixed(ctx, ctx.rng("c08:general"), 2000 if ctx.quick else 100000)
     ctx.require("flow:strapdown_ins_propagate", "(shipped strapdown function never evaluated)")
     for site, (spec, ev) in funcs.items():
         p0, v0, q0, a, w, g, dt = gen_inputs(rng, N)
@@ -206,7 +209,7 @@ def run(ctx):
         except Exception as e:  # bracketing is best-effort; coverage of both sides is still measured via cells
             ctx.count("bracket_failed:" + site)
         compare(ctx, site, spec, ev, p0, v0, q0, a, w, g, dt, oracle_np)
-        ctx.distinct(np.concatenate([p0, v0, q0, a, w, g[:, None], dt[:, None]], axis=1), (dt > 0) & ((np.abs(w).max(axis=1) > 0) | (np.abs(a).max(axis=1) > 0)))
+        ctx.distinct(np.concatenate([p0, v0, q0, a, w, g[:, None], dt[:, None]], axis=1), (dt != 0) & ((np.abs(w).max(axis=1) > 0) | (np.abs(a).max(axis=1) > 0)))
         # mp sub-sample (also cross-checks the double oracle)
         idx = rng.choice(N, n_mp, replace=False)
 
@@ -322,6 +325,55 @@ def numeric_and_named_calls(ctx, rng, n):
     err = np.where(np.isfinite(X1).all(axis=1), np.maximum(np.maximum(np.abs(X1[:, :3] - p1).max(axis=1), np.abs(X1[:, 3:6] - v1).max(axis=1)) / scale,
                                                           np.abs(O.quat_to_R(X1[:, 6:]) - R1).max(axis=(1, 2))), np.inf)
     ctx.check_array("call_by_argument_name", "strapdown_ins_propagate", err, 1e-9, {"x0": np.concatenate([p0, v0, q0], axis=1), "a_b": a, "omega_b": w, "g": g, "dt": dt})
+
+
+def general_exp_mixed(ctx, rng, N, sub="general_exp_mixed", max_angle=PI - 0.2, kinds=("quat", "mrp", "dcm")):
+    """exp_mixed for arbitrary increments (the right increment rotates too, the left one carries v_b, B is any multiple of
+    the nilpotent coupling): as 5x5 matrices X1 = expm([[Om_r, A_r],[0,-B]]) X0 expm([[Om_l, A_l],[0,B]]) with A = [a_b, v_b]
+    (oracle: scipy expm).  The strapdown use only exercises r without rotation and l without v_b."""
+    import cyecca.lie as L
+
+    def alg5(x, b):
+        M = np.zeros((len(x), 5, 5))
+        M[:, :3, :3] = O.hat3(x[:, 6:9])
+        M[:, :3, 3] = x[:, 3:6]
+        M[:, :3, 4] = x[:, 0:3]
+        M[:, 3, 4] = b
+        return M
+
+    for kind in kinds:
+        spec = SE23Spec(SO3S[kind])
+        so3 = spec.so3
+        try:
+            G = spec.lib()
+        except Exception:
+            continue
+        x0, l, r, b = ca.SX.sym("x0", spec.n), ca.SX.sym("l", 9), ca.SX.sym("r", 9), ca.SX.sym("b")
+        B = ca.SX(2, 2)
+        B[0, 1] = b
+        ev = lib_call(ctx, sub, spec.name, lambda: Ev("gm", [x0, l, r, b], [G.exp_mixed(G.elem(x0), L.se23.elem(l), L.se23.elem(r), B).param]))
+        if ev is None:
+            continue
+        ang = lambda n_: O.random_axes(rng, n_) * (rng.uniform(0, 1, n_) ** 2 * max_angle)[:, None]
+        q0 = SO3S["quat"].rand(rng, N)
+        R0 = O.quat_to_R(q0)
+        rot = q0 if kind == "quat" else so3.from_R(R0, rng)
+        R0 = so3.mat(rot)
+        p0, v0 = rng.normal(size=(N, 3)), rng.normal(size=(N, 3))
+        ln = np.concatenate([rng.normal(size=(N, 6)) * rng.choice([0.0, 0.1, 1.0], (N, 1)), ang(N)], axis=1)
+        rn = np.concatenate([rng.normal(size=(N, 6)) * rng.choice([0.0, 0.1, 1.0], (N, 1)), ang(N) * rng.choice([0.0, 1e-6, 1.0, 1.0], (N, 1))], axis=1)
+        bn = rng.choice([0.0, 0.01, 1.0, -0.5], N) * rng.uniform(0.5, 1.5, N)
+        (X1,), _ = ev(np.concatenate([p0, v0, rot], axis=1), ln, rn, bn)
+        X1 = X1[:, :, 0]
+        X0m = np.tile(np.eye(5), (N, 1, 1))
+        X0m[:, :3, :3], X0m[:, :3, 3], X0m[:, :3, 4] = R0, v0, p0
+        ref = O.expm_batch(alg5(rn, -bn)) @ X0m @ O.expm_batch(alg5(ln, bn))
+        okk = np.ones(N, bool)
+        sc = np.maximum(1.0, np.abs(ref[:, :3, 3:]).max(axis=(1, 2)))
+        fin = np.isfinite(X1).all(axis=1)
+        err = np.where(fin, np.maximum(np.maximum(np.abs(X1[:, :3] - ref[:, :3, 4]).max(axis=1), np.abs(X1[:, 3:6] - ref[:, :3, 3]).max(axis=1)) / sc,
+                                       np.abs(so3.mat(X1[:, 6:]) - ref[:, :3, :3]).max(axis=(1, 2))), np.inf)
+        ctx.check_array(sub, spec.name, err[okk], 1e-9, {"x0": np.concatenate([p0, v0, rot], axis=1)[okk], "l": ln[okk], "r": rn[okk], "b": bn[okk]})
 
 
 def histories(ctx, site, spec, ev, rng, H):
